@@ -56,6 +56,11 @@ class Node(param.Parameterized):
         inner = None if self.sub is None else self.sub.inner
         self.calls.append(('m_deep', None if inner is None else inner.v))
 
+    @param.depends('name:constant', watch=True)
+    def m_flag(self):
+        # (runs when edit_constant switches the flag of the object's own Parameter; must not run on a half-built copy)
+        self.calls.append(('m_flag', self.param.name.constant))
+
     def record(self, *events):
         self.calls.append(('watch',) + tuple((e.name, e.new) for e in events))
 
